@@ -448,6 +448,18 @@ class Impl:
             if self.role == "client":
                 if q and q[-1].type.value == 3:
                     o[4] = bytes(q[-1].payload)
+                else:
+                    # the challenge response was already emitted by the same update() call:
+                    # recover its payload from the datagram (single message: seq(2) + payload)
+                    from cryptography.hazmat.primitives.ciphers.aead import AESGCM
+                    for d in getattr(self.sock, "sent", []):
+                        if len(d) > 20 and d[12] == 3 and self.conn.session_key_bytes:
+                            try:
+                                ln = struct.unpack(">H", d[13:15])[0]
+                                pt = AESGCM(self.conn.session_key_bytes).decrypt(d[:12], d[20:20 + ln + 16], d[:20])
+                                o[4] = bytes(pt[2:])
+                            except Exception:   # noqa
+                                pass
             else:
                 if q and q[-1].type.value == 2 and o[1]:
                     o[4] = bytes(q[-1].payload)
